@@ -360,6 +360,12 @@ J_C17(i) ==
 (* ================================================================== C30 (end to end) *)
 J_C30(i) ==
     LET e == Trace[i] pre == Pre(i) IN
+    \* a client publish to a topic that starts with $SYS (or contains a wildcard) is never accepted: nobody receives it and
+    \* nothing is retained - whether the topic travels with or without a topic alias
+    IF e.ev = "publish" /\ e.err = "" /\ ~e.a.notopic /\ e.a.m # "" /\ (SysTopic(e.a.t) \/ \E j \in 1..Len(e.a.t) : Wild(e.a.t[j])) THEN
+       Cat(<<If(\E d \in AllClientIds(e) : WireCopies(e, d, e.a.m) > 0, Cmp("C30.refused-topic-publish-routed", e.c, JoinL(e.a.t), e.a.alias)),
+             If(\E r \in RetainedSet(e.st) : r.m = e.a.m, Cmp("C30.refused-topic-publish-retained", e.c, JoinL(e.a.t), e.a.alias))>>)
+    ELSE
     IF e.ev # "subscribe" \/ e.err # "" THEN <<>> ELSE
     LET acks == SelectSeq(OutOf(e, e.k), LAMBDA q : q.t = SUBACK) IN
     IF Len(acks) # 1 \/ Len(acks[1].codes) # Len(e.a.filters) THEN <<>> ELSE
